@@ -442,7 +442,7 @@ func writeEvidence(prop, tier string, seed uint64, plan Plan, a *agg, enumRuns i
 	assumptions := []string{
 		"transport guarantees of DESIGN.md §3.1: per-resource FIFO for get/query replies and events, everything else unordered; exactly one completion per request",
 		"services are protocol-correct except where the armed fault says otherwise",
-		"scheduling points are those inserted by verif-instrument rules R1-R4 (R1b for select loops); code between two points is atomic",
+		"scheduling points are those inserted by verif-instrument rules R1-R4 (R1b for select loops), plus, in profiles locks, stop and (one run in three) nats, rule R8: before every lock acquisition by a goroutine that holds no lock; code between two points is atomic",
 		"bounds: at most 6 connections, 12 resource names, 4000 steps per run; seeded sampling, not enumeration",
 	}
 	if prop == "C18" {
@@ -454,7 +454,8 @@ func writeEvidence(prop, tier string, seed uint64, plan Plan, a *agg, enumRuns i
 		}
 		assumptions = []string{
 			"the fake server delivers what it is told to in the order it is told to (one TCP-like stream); it never reorders or duplicates on its own",
-			"scheduling points: the adapter's listener loop (one message per step) and the go statements of the adapter; the client library's own goroutines run to quiescence between steps",
+			"scheduling points: the adapter's listener loop (one message per step) and the go statements of the adapter; in one run of three also every lock acquisition by an adapter goroutine that holds no lock (rule R8: listener, timer queue, timers of extended deadlines, completion callbacks); the client library's own goroutines run to quiescence between steps",
+			"the fake server honours UNSUB <sid> <max> (a subscription ends after max delivered messages)",
 			"bounds: at most 40 requests and 4 event subscriptions per run, 320 steps; request timeout 3 s; seeded sampling, not enumeration",
 		}
 	}
